@@ -114,6 +114,19 @@ def hashinShtrikmanLower(mobility: np.array, phaseFracs: np.array, *args, **kwar
     min_mob = np.amin(modified_mob, axis=0)    # (p, e) -> (e,)
     return _hashinShtrikmanGeneral(modified_mob, phaseFracs, min_mob)
 
+def _stablePhaseIndices(therm: GeneralThermodynamics, phase: str, **kwargs):
+    '''
+    Rows of the mobility / phase fraction arrays that belong to a phase
+
+    The arrays have one row per stable phase (in the order of the composition sets of
+    the equilibrium, given by the keyword 'phases'), which is in general neither the
+    length nor the order of therm.phases
+    '''
+    phases = kwargs.get('phases', None)
+    if phases is None:
+        phases = therm.phases
+    return [i for i, p in enumerate(phases) if p == phase]
+
 def _postProcessDoNothing(therm: GeneralThermodynamics, mobility: np.array, phaseFracs: np.array, *args, **kwargs):
     return mobility, phaseFracs
 
@@ -126,8 +139,10 @@ def _postProcessPredefinedMatrixPhase(therm: GeneralThermodynamics, mobility: np
     across the diffusion couple
     '''
     alpha_phase = args[0]
-    alpha_idx = therm.phases.index(alpha_phase)
-    alpha_mob = mobility[alpha_idx]
+    alpha_idx = _stablePhaseIndices(therm, alpha_phase, **kwargs)
+    if len(alpha_idx) == 0:
+        return mobility, phaseFracs
+    alpha_mob = mobility[alpha_idx[0]]
     for i in range(mobility.shape[1]):
         mobility[:,i][mobility[:,i] == -1] = alpha_mob[i]
     return mobility, phaseFracs
@@ -149,9 +164,9 @@ def _postProcessExcludePhases(therm: GeneralThermodynamics, mobility: np.array, 
     mobility is unknown
     '''
     excluded_phases = args[0]
-    phase_idxs = [therm.phases.index(p) for p in excluded_phases]
-    for p in phase_idxs:
-        phaseFracs[p] = 0
+    for phase in excluded_phases:
+        for p in _stablePhaseIndices(therm, phase, **kwargs):
+            phaseFracs[p] = 0
     return mobility, phaseFracs
 
 class HomogenizationParameters:
@@ -348,11 +363,12 @@ def computeHomogenizationFunction(therm : GeneralThermodynamics, x, T, homogeniz
     chemical_potentials = np.zeros((x.shape[0], len(therm.elements)-1))
     for i in range(len(x)):
         mobility_data = _computeSingleMobility(therm, x[i], T[i], unsortIndices, hashTable)
-        mob = mobility_data.mobility
-        phase_fracs = mobility_data.phase_fractions
+        # copies, since the post process functions modify the arrays and mobility_data may be stored in the hash table
+        mob = np.array(mobility_data.mobility, dtype=np.float64)
+        phase_fracs = np.array(mobility_data.phase_fractions, dtype=np.float64)
         chemical_potentials[i,:] = mobility_data.chemical_potentials
 
-        mob, phase_fracs = homogenizationParameters.postProcessFunction(therm, mob, phase_fracs, *homogenizationParameters.postProcessParameters)
+        mob, phase_fracs = homogenizationParameters.postProcessFunction(therm, mob, phase_fracs, *homogenizationParameters.postProcessParameters, phases=mobility_data.phases)
         avg_mob[i] = homogenizationParameters.homogenizationFunction(mob, phase_fracs, labyrinth_factor = homogenizationParameters.labyrinthFactor)
 
     return np.squeeze(avg_mob), np.squeeze(chemical_potentials)
